@@ -44,7 +44,7 @@ RULE = ("ALL 380 ordered pairs of distinct catalogue types on one indexed column
         "type family, type arguments, server default added/removed/changed, foreign key added/dropped/changed, constraint/index added, "
         "dropped, columns changed, unique flag flipped, kind swapped, renamed), pairs violating 'no dropped table still referenced' "
         "re-drawn; each pair is run under the 4 compare_type x compare_server_default settings, each with render_as_batch False and True "
-        "(rendered, executed, reflected, compared again). Every fourth random pair (and 4 fixed ones) gives some string columns a collation (String(n, collation='NOCASE')): decoration outside the model that SQLite does not reflect and the comparison must not report. When finding C06-sqlite-string-default-not-quiet is registered, 4 witness "
+        "(rendered with the migration context as `alembic revision --autogenerate` does, executed on a database that holds ONE ROW in every table of A - every column non-NULL; a table to which B adds a NOT NULL column without a usable default stays empty -, reflected, compared again; an exception while the rendered batch upgrade runs is a decider failure). 14 fixed pairs add a column with an SQL-expression server default (CURRENT_TIMESTAMP as text and as func.now(), (CURRENT_DATE), 1 + 2, a function call; nullable and NOT NULL) to a populated table; 40 (thorough 2000) pairs make several changes at once in the shapes of C07's seq suite (one table losing >= 2 columns and gaining >= 1, 2-5 changes inside one table, a table added together with a foreign key to it, mixed). Every fourth random pair (and 4 fixed ones) gives some string columns a collation (String(n, collation='NOCASE')): decoration outside the model that SQLite does not reflect and the comparison must not report. When finding C06-sqlite-string-default-not-quiet is registered, 4 witness "
         "cases of the refuted class are added. non-trivial = the first comparison db(A) vs B yields at least one operation; distinct "
         "by the encoded pair")
 EXHAUSTIVE = {"quick": False, "thorough": False}
@@ -65,7 +65,7 @@ LEVEL_NOTE = ("Partial: closed type catalogue, SQLite only, server defaults rest
 
 def generate(tier, seed):
     rnd = random.Random(seed * 7919 + 6)
-    n = 300 if tier == "quick" else 8000
+    n = 260 if tier == "quick" else 8000
     import copy
     for A, y in S.type_matrix(True):          # all 380 ordered pairs of distinct catalogue types on one (indexed) column
         B = copy.deepcopy(A)
@@ -93,6 +93,32 @@ def generate(tier, seed):
         B[0]["cols"].append([3, 3, [20], True, False, None])
         B[0]["deco"] = {"collate": [1, 3]}
         yield {"A": A, "B": B, "desc": ["collation"]}
+    # a column with an SQL-expression server default added to a table that holds a row (batch mode must copy the table: SQLite
+    # refuses ALTER TABLE ADD COLUMN with a non-constant default then); CURRENT_TIMESTAMP also spelled func.now()
+    for d, fn_ in [(["expr", "CURRENT_TIMESTAMP"], False), (["expr", "CURRENT_TIMESTAMP"], True), (["expr", "(CURRENT_DATE)"], False),
+                   (["expr", "1 + 2"], False), (["expr", "abs(-3)"], False), (["expr", "(abs(-3))"], False), (["expr", "5"], False)]:
+        for nl in (True, False):
+            A = [{"name": 0, "cols": [[0, 0, [], False, True, None], [1, 3, [20], True, False, None]], "cons": [], "fks": []}]
+            B = copy.deepcopy(A)
+            B[0]["cols"].append([2, 10 if "CURRENT" in d[1] else 0, [], nl, False, list(d)])
+            if fn_: B[0]["deco"] = {"funcnow": [2]}
+            yield {"A": A, "B": B, "desc": ["add_expr_default"]}
+    # several changes at once (the shapes of C07's seq suite): one table losing >= 2 columns and gaining >= 1, 2-5 changes inside one
+    # table, a table added together with a foreign key to it, mixed (not: a table dropped together with the foreign keys pointing at
+    # it -- the side condition "no dropped table is still referenced by a table of A that stays" excludes it)
+    srnd = random.Random(seed * 31337 + 6)
+    shapes = ["drop2_add1", "same_table", "drop2_add1", "add_target", "mixed"]
+    done = tries = 0
+    nseq = 40 if tier == "quick" else 2000
+    while done < nseq and tries < 40 * nseq:
+        tries += 1
+        A = S.gen_schema(srnd)
+        ms = S.gen_mut_seq(srnd, A, shapes[done % len(shapes)])
+        if ms is None: continue
+        B = S.apply_mutations(A, ms)
+        if not (S.no_dangling(A, B) and S.fk_names_ok(A, B)): continue
+        done += 1
+        yield {"A": A, "B": B, "desc": ["seq_" + shapes[(done - 1) % len(shapes)]] + [m[0] for m in ms]}
     crnd = random.Random(seed * 65537 + 6)
     for k in range(n):
         A, B, desc = S.gen_pair(rnd)
@@ -147,6 +173,7 @@ def _apply(h, cfg, batch, mdB):
     e = S.fresh_db(h["A"])
     try:
         with e.connect() as conn:
+            S.populate(conn, h["A"], h["B"])        # the upgrade runs on a database that holds a row in every table
             ctx, ms = S.compare(conn, mdB, cfg, batch=batch)
             err, code = S.run_upgrade(conn, ctx, ms.upgrade_ops, batch)
             if err is not None:
